@@ -50,6 +50,38 @@ def subharnesses(tier):
                         'apps': apps, 'event': ['none']}
                 subs.append(('%s-inactive-%s-%s-%s' % (
                     topo, st, '_'.join(extra) or 'plain', g1.ptag(pl)), spec))
+    # instances of one affinity name that declare DIFFERENT limit values for
+    # the same levels (limits tightened between submissions)
+    for topo in ('T1', 'T2'):
+        for l0, l1 in (({'server': 2, 'rack': 2}, {'server': 1, 'rack': 2}),
+                       ({'server': 2}, {'server': 1})):
+            for pl in ((None, None, None), (0, None, None), (None, 0, None),
+                       (0, 0, None), (0, 1, None)):
+                apps = [{'place': j, 'aff': 'x',
+                         'limits': dict(l0 if i == 0 else l1)}
+                        for i, j in enumerate(pl)]
+                spec = {'topo': topo, 'D': 1, 'servers': [{}, {}],
+                        'apps': apps, 'event': ['none']}
+                subs.append(('%s-mixedlimits-%s-%s' % (
+                    topo, '_'.join('%s%d' % kv for kv in sorted(l1.items())),
+                    g1.ptag(pl)), spec))
+    # the master's 'cell' event (real Loader.load_cell) with instances placed
+    for topo, lim, pls in (
+            ('T2', {'cell': 2}, g1.placements(3, 2, symmetric=True)),
+            ('T1', {'server': 1, 'cell': 3}, [(0, 1, None), (0, None, None)]),
+            ('T3', {'cell': 2}, [(0, 2, None), (2, None, None), (0, 1, None)]),
+            ('T3', {'server': 1, 'cell': 3}, [(0, 1, 2), (0, None, 2)])):
+        ns = len(g1.TOPOS[topo][1])
+        for pl in pls:
+            if all(j is None for j in pl):
+                continue
+            apps = [{'place': j, 'aff': 'x', 'limits': dict(lim)} for j in pl]
+            spec = {'topo': topo, 'D': 1,
+                    'servers': [{} for _ in range(ns)],
+                    'apps': apps, 'event': ['reload_cell']}
+            subs.append(('%s-reload_cell-%s-%s' % (
+                topo, '_'.join('%s%d' % kv for kv in sorted(lim.items())),
+                g1.ptag(pl)), spec))
     return subs
 
 
@@ -66,6 +98,10 @@ def _evict_branch(S, label):
 def harness(S, spec):
     W = g1.build(S, spec)
     g1.c04_oracle(W, ':pre', assume=True)     # pre-state satisfies the limits
+    if spec['event'][0] != 'none':
+        g1.apply_event(W, spec['event'])
+        S.reach('event:' + spec['event'][0])
+        g1.c04_oracle(W, ':after_event')
     placement = W.cell.schedule()
     g1.reach_branches(W)
     S.reach('scheduled')
@@ -81,5 +117,6 @@ META = {
         'Node.check_app_constraints', 'Bucket.put', 'Server.put',
         'Server.restore', 'Server.remove', 'Node.increment_affinity',
         'Node.decrement_affinity'],
-    'reach_required': ['scheduled', 'eviction_put', 'restored_after_eviction'],
+    'reach_required': ['scheduled', 'eviction_put', 'restored_after_eviction',
+                       'event:reload_cell'],
 }
